@@ -17,6 +17,16 @@ type CharClass struct {
 }
 
 func (t *CharClass) RunPass(ctx *Context, pass Pass) {
+	if pass == Check {
+		for _, item := range t.CharClassItems {
+			if item.From > item.To {
+				ctx.Errs.Errorf(
+					ctx.Position(t),
+					"invalid character range %v: the lower bound is above the upper bound",
+					rang3.Range{B: item.From, E: item.To})
+			}
+		}
+	}
 	RunPass(ctx, t.CharClassItems, pass)
 }
 
